@@ -1,0 +1,310 @@
+//go:build verif
+
+package openapi3
+
+// C11: with external references disallowed the loader reads nothing but the root document.
+// Ghost state: extReads counts reads of a location that is not the root document; rootURL is the
+// location the load was started with (LoadFromURI / LoadFromDataWithPath). All reads funnel
+// through (*Loader).readURL (scan obligation); its contract DEFINES the ghost counter.
+
+//@ global nonnil DefaultReadFromURI
+// helpers of the loader without a contract of their own are scanned for these frame facts
+//@ default-frame @C11 preserves Loader.IsExternalRefsAllowed, url.URL.Scheme, url.URL.Opaque, url.URL.Host, url.URL.Path, url.URL.RawPath, url.URL.RawQuery, extReads, rootURL
+//@ ghost var extReads int
+//@ ghost var rootURL ref
+//@ spec sameDoc(a *url.URL, b *url.URL) bool :=
+//@     a.Scheme == b.Scheme && a.Opaque == b.Opaque && a.Host == b.Host && a.Path == b.Path && a.RawPath == b.RawPath && a.RawQuery == b.RawQuery
+//@ spec rootOK(u *url.URL) bool := u != nil && sameDoc(u, cast(rootURL, type *url.URL))
+// a path the loader may re-read: anything when external references are allowed, else nothing or the root
+//@ spec pathOK(l *Loader, p *url.URL) bool := l.IsExternalRefsAllowed || p == nil || rootOK(p)
+
+// The read callback is where the outside world is touched: its contract DEFINES the counter.
+// (A3: a user-supplied reader does not mutate the loader.)
+//@ fnfield ReadFromURIFunc (loader, url)
+//@   modifies extReads
+//@   defines rootOK(url) ==> extReads == old(extReads)
+//@   defines !rootOK(url) ==> extReads == old(extReads) + 1
+
+//@ func (*Loader).readURL
+//@   requires loader != nil
+//@   modifies extReads
+//@   ensures rootOK(location) ==> extReads == old(extReads)
+//@   ensures !rootOK(location) ==> extReads == old(extReads) + 1
+//@   tag C11
+
+//@ func (*Loader).allowsExternalRefs
+//@   requires loader != nil
+//@   modifies nothing
+//@   ensures (result == nil) <==> loader.IsExternalRefsAllowed
+//@   tag C11
+
+//@ func copyURI
+//@   modifies nothing
+//@   ensures u == nil ==> result == nil
+//@   ensures u != nil ==> result != nil && fresh(result) && sameDoc(result, u)
+//@   tag C11
+
+//@ func is_file
+//@   requires location != nil
+//@   modifies nothing
+//@   tag C11
+//@ func join
+//@   requires relativePath != nil
+//@   modifies nothing
+//@   ensures result != nil
+//@   tag C11
+//@ func resolvePath
+//@   requires componentPath != nil
+//@   modifies nothing
+//@   ensures result != nil
+//@   tag C11
+//@ func resolvePathWithRef
+//@   modifies url.URL.Fragment
+//@   ensures result.1 == nil ==> result.0 != nil
+//@   tag C11
+
+// an internal reference ("#...") stays in the document of `path`; anything else needs the switch
+//@ func (*Loader).resolveRefPath
+//@   requires loader != nil
+//@   modifies nothing
+//@   ensures result.1 == nil && ref != "" && ref[0] == '#' ==> result.0 != nil && (path != nil ==> sameDoc(result.0, path))
+//@   ensures result.1 == nil && ref != "" && ref[0] == '#' && path == nil ==> fresh(result.0)
+//@   ensures result.1 == nil && !(ref != "" && ref[0] == '#') ==> loader.IsExternalRefsAllowed
+//@   ensures result.1 == nil ==> result.0 != nil
+//@   tag C11
+
+//@ func (*Loader).resolveRef
+//@   requires loader != nil
+//@   modifies url.URL.Fragment
+//@   ensures result.2 == nil && !(ref != "" && ref[0] == '#') ==> loader.IsExternalRefsAllowed
+//@   ensures result.2 == nil ==> result.1 != nil
+//@   tag C11
+
+//@ func unmarshal
+//@   modifies *
+//@   preserves @C11 Loader.IsExternalRefsAllowed, url.URL.Scheme, url.URL.Opaque, url.URL.Host, url.URL.Path, url.URL.RawPath, url.URL.RawQuery
+//@   preserves @C11 extReads, rootURL
+
+//@ func (*Loader).loadSingleElementFromURI
+//@   requires loader != nil
+//@   modifies *
+//@   modifies extReads
+//@   ensures !old(loader.IsExternalRefsAllowed) ==> result.1 != nil && extReads == old(extReads)
+//@   ensures loader.IsExternalRefsAllowed == old(loader.IsExternalRefsAllowed)
+//@   tag C11
+
+// ---- the resolvers: with the switch off they keep every path in the root document and never
+// reach a read of anything else. Frame facts (nobody writes the switch or the location part of a
+// URL other than on a fresh copy) are discharged by the call-graph scan.
+//@ func (*Loader).resolveHeaderRef
+//@   requires loader != nil && pathOK(loader, documentPath)
+//@   loop * invariant loader.IsExternalRefsAllowed == old(loader.IsExternalRefsAllowed)
+//@   loop * invariant !old(loader.IsExternalRefsAllowed) ==> extReads == old(extReads)
+//@   loop * invariant pathOK(loader, documentPath)
+//@   modifies *
+//@   modifies extReads
+//@   preserves @C11 Loader.IsExternalRefsAllowed, url.URL.Scheme, url.URL.Opaque, url.URL.Host, url.URL.Path, url.URL.RawPath, url.URL.RawQuery
+//@   preserves @C11 rootURL
+//@   ensures [no-external-read] !old(loader.IsExternalRefsAllowed) ==> extReads == old(extReads)
+//@   option safety-tags C20
+//@   tag C11
+//@ func (*Loader).resolveParameterRef
+//@   requires loader != nil && pathOK(loader, documentPath)
+//@   loop * invariant loader.IsExternalRefsAllowed == old(loader.IsExternalRefsAllowed)
+//@   loop * invariant !old(loader.IsExternalRefsAllowed) ==> extReads == old(extReads)
+//@   loop * invariant pathOK(loader, documentPath)
+//@   modifies *
+//@   modifies extReads
+//@   preserves @C11 Loader.IsExternalRefsAllowed, url.URL.Scheme, url.URL.Opaque, url.URL.Host, url.URL.Path, url.URL.RawPath, url.URL.RawQuery
+//@   preserves @C11 rootURL
+//@   ensures [no-external-read] !old(loader.IsExternalRefsAllowed) ==> extReads == old(extReads)
+//@   option safety-tags C20
+//@   tag C11
+//@ func (*Loader).resolveRequestBodyRef
+//@   requires loader != nil && pathOK(loader, documentPath)
+//@   loop * invariant loader.IsExternalRefsAllowed == old(loader.IsExternalRefsAllowed)
+//@   loop * invariant !old(loader.IsExternalRefsAllowed) ==> extReads == old(extReads)
+//@   loop * invariant pathOK(loader, documentPath)
+//@   modifies *
+//@   modifies extReads
+//@   preserves @C11 Loader.IsExternalRefsAllowed, url.URL.Scheme, url.URL.Opaque, url.URL.Host, url.URL.Path, url.URL.RawPath, url.URL.RawQuery
+//@   preserves @C11 rootURL
+//@   ensures [no-external-read] !old(loader.IsExternalRefsAllowed) ==> extReads == old(extReads)
+//@   option safety-tags C20
+//@   tag C11
+//@ func (*Loader).resolveResponseRef
+//@   requires loader != nil && pathOK(loader, documentPath)
+//@   loop * invariant loader.IsExternalRefsAllowed == old(loader.IsExternalRefsAllowed)
+//@   loop * invariant !old(loader.IsExternalRefsAllowed) ==> extReads == old(extReads)
+//@   loop * invariant pathOK(loader, documentPath)
+//@   modifies *
+//@   modifies extReads
+//@   preserves @C11 Loader.IsExternalRefsAllowed, url.URL.Scheme, url.URL.Opaque, url.URL.Host, url.URL.Path, url.URL.RawPath, url.URL.RawQuery
+//@   preserves @C11 rootURL
+//@   ensures [no-external-read] !old(loader.IsExternalRefsAllowed) ==> extReads == old(extReads)
+//@   option safety-tags C20
+//@   tag C11
+//@ func (*Loader).resolveSchemaRef
+//@   requires loader != nil && pathOK(loader, documentPath)
+//@   loop * invariant loader.IsExternalRefsAllowed == old(loader.IsExternalRefsAllowed)
+//@   loop * invariant !old(loader.IsExternalRefsAllowed) ==> extReads == old(extReads)
+//@   loop * invariant pathOK(loader, documentPath)
+//@   modifies *
+//@   modifies extReads
+//@   preserves @C11 Loader.IsExternalRefsAllowed, url.URL.Scheme, url.URL.Opaque, url.URL.Host, url.URL.Path, url.URL.RawPath, url.URL.RawQuery
+//@   preserves @C11 rootURL
+//@   ensures [no-external-read] !old(loader.IsExternalRefsAllowed) ==> extReads == old(extReads)
+//@   option safety-tags C20
+//@   tag C11
+//@ func (*Loader).resolveSecuritySchemeRef
+//@   requires loader != nil && pathOK(loader, documentPath)
+//@   loop * invariant loader.IsExternalRefsAllowed == old(loader.IsExternalRefsAllowed)
+//@   loop * invariant !old(loader.IsExternalRefsAllowed) ==> extReads == old(extReads)
+//@   loop * invariant pathOK(loader, documentPath)
+//@   modifies *
+//@   modifies extReads
+//@   preserves @C11 Loader.IsExternalRefsAllowed, url.URL.Scheme, url.URL.Opaque, url.URL.Host, url.URL.Path, url.URL.RawPath, url.URL.RawQuery
+//@   preserves @C11 rootURL
+//@   ensures [no-external-read] !old(loader.IsExternalRefsAllowed) ==> extReads == old(extReads)
+//@   option safety-tags C20
+//@   tag C11
+//@ func (*Loader).resolveExampleRef
+//@   requires loader != nil && pathOK(loader, documentPath)
+//@   loop * invariant loader.IsExternalRefsAllowed == old(loader.IsExternalRefsAllowed)
+//@   loop * invariant !old(loader.IsExternalRefsAllowed) ==> extReads == old(extReads)
+//@   loop * invariant pathOK(loader, documentPath)
+//@   modifies *
+//@   modifies extReads
+//@   preserves @C11 Loader.IsExternalRefsAllowed, url.URL.Scheme, url.URL.Opaque, url.URL.Host, url.URL.Path, url.URL.RawPath, url.URL.RawQuery
+//@   preserves @C11 rootURL
+//@   ensures [no-external-read] !old(loader.IsExternalRefsAllowed) ==> extReads == old(extReads)
+//@   option safety-tags C20
+//@   tag C11
+//@ func (*Loader).resolveCallbackRef
+//@   requires loader != nil && pathOK(loader, documentPath)
+//@   loop * invariant loader.IsExternalRefsAllowed == old(loader.IsExternalRefsAllowed)
+//@   loop * invariant !old(loader.IsExternalRefsAllowed) ==> extReads == old(extReads)
+//@   loop * invariant pathOK(loader, documentPath)
+//@   modifies *
+//@   modifies extReads
+//@   preserves @C11 Loader.IsExternalRefsAllowed, url.URL.Scheme, url.URL.Opaque, url.URL.Host, url.URL.Path, url.URL.RawPath, url.URL.RawQuery
+//@   preserves @C11 rootURL
+//@   ensures [no-external-read] !old(loader.IsExternalRefsAllowed) ==> extReads == old(extReads)
+//@   option safety-tags C20
+//@   tag C11
+//@ func (*Loader).resolveLinkRef
+//@   requires loader != nil && pathOK(loader, documentPath)
+//@   loop * invariant loader.IsExternalRefsAllowed == old(loader.IsExternalRefsAllowed)
+//@   loop * invariant !old(loader.IsExternalRefsAllowed) ==> extReads == old(extReads)
+//@   loop * invariant pathOK(loader, documentPath)
+//@   modifies *
+//@   modifies extReads
+//@   preserves @C11 Loader.IsExternalRefsAllowed, url.URL.Scheme, url.URL.Opaque, url.URL.Host, url.URL.Path, url.URL.RawPath, url.URL.RawQuery
+//@   preserves @C11 rootURL
+//@   ensures [no-external-read] !old(loader.IsExternalRefsAllowed) ==> extReads == old(extReads)
+//@   option safety-tags C20
+//@   tag C11
+//@ func (*Loader).resolvePathItemRef
+//@   requires loader != nil && pathOK(loader, documentPath)
+//@   loop * invariant loader.IsExternalRefsAllowed == old(loader.IsExternalRefsAllowed)
+//@   loop * invariant !old(loader.IsExternalRefsAllowed) ==> extReads == old(extReads)
+//@   loop * invariant pathOK(loader, documentPath)
+//@   modifies *
+//@   modifies extReads
+//@   preserves @C11 Loader.IsExternalRefsAllowed, url.URL.Scheme, url.URL.Opaque, url.URL.Host, url.URL.Path, url.URL.RawPath, url.URL.RawQuery
+//@   preserves @C11 rootURL
+//@   ensures [no-external-read] !old(loader.IsExternalRefsAllowed) ==> extReads == old(extReads)
+//@   option safety-tags C20
+//@   tag C11
+//@ func (*Loader).resolveComponent
+//@   requires loader != nil && pathOK(loader, path)
+//@   loop * invariant loader.IsExternalRefsAllowed == old(loader.IsExternalRefsAllowed)
+//@   loop * invariant !old(loader.IsExternalRefsAllowed) ==> extReads == old(extReads)
+//@   modifies *
+//@   modifies extReads
+//@   preserves @C11 Loader.IsExternalRefsAllowed, url.URL.Scheme, url.URL.Opaque, url.URL.Host, url.URL.Path, url.URL.RawPath, url.URL.RawQuery
+//@   preserves @C11 rootURL
+//@   ensures [no-external-read] !old(loader.IsExternalRefsAllowed) ==> extReads == old(extReads)
+//@   option safety-tags C20
+//@   ensures [path-stays-in-root] result.2 == nil ==> pathOK(loader, result.1)
+//@   tag C11
+//@ func (*Loader).resolveRefAndDocument
+//@   requires loader != nil && pathOK(loader, path)
+//@   loop * invariant loader.IsExternalRefsAllowed == old(loader.IsExternalRefsAllowed)
+//@   loop * invariant !old(loader.IsExternalRefsAllowed) ==> extReads == old(extReads)
+//@   modifies *
+//@   modifies extReads
+//@   preserves @C11 Loader.IsExternalRefsAllowed, url.URL.Scheme, url.URL.Opaque, url.URL.Host, url.URL.Path, url.URL.RawPath, url.URL.RawQuery
+//@   preserves @C11 rootURL
+//@   ensures [no-external-read] !old(loader.IsExternalRefsAllowed) ==> extReads == old(extReads)
+//@   option safety-tags C20
+//@   ensures [path-stays-in-root] result.3 == nil ==> pathOK(loader, result.2)
+//@   tag C11
+//@ func (*Loader).loadFromURIInternal
+//@   requires loader != nil && location != nil && (loader.IsExternalRefsAllowed || rootOK(location))
+//@   modifies *
+//@   modifies extReads
+//@   preserves @C11 Loader.IsExternalRefsAllowed, url.URL.Scheme, url.URL.Opaque, url.URL.Host, url.URL.Path, url.URL.RawPath, url.URL.RawQuery
+//@   preserves @C11 rootURL
+//@   ensures [no-external-read] !old(loader.IsExternalRefsAllowed) ==> extReads == old(extReads)
+//@   option safety-tags C20
+//@   tag C11
+//@ func (*Loader).loadFromDataWithPathInternal
+//@   requires loader != nil && location != nil && pathOK(loader, location)
+//@   modifies *
+//@   modifies extReads
+//@   preserves @C11 Loader.IsExternalRefsAllowed, url.URL.Scheme, url.URL.Opaque, url.URL.Host, url.URL.Path, url.URL.RawPath, url.URL.RawQuery
+//@   preserves @C11 rootURL
+//@   ensures [no-external-read] !old(loader.IsExternalRefsAllowed) ==> extReads == old(extReads)
+//@   option safety-tags C20
+//@   tag C11
+//@ func (*Loader).ResolveRefsIn
+//@   requires loader != nil && doc != nil && pathOK(loader, location)
+//@   loop * invariant loader.IsExternalRefsAllowed == old(loader.IsExternalRefsAllowed)
+//@   loop * invariant !old(loader.IsExternalRefsAllowed) ==> extReads == old(extReads)
+//@   modifies *
+//@   modifies extReads
+//@   preserves @C11 Loader.IsExternalRefsAllowed, url.URL.Scheme, url.URL.Opaque, url.URL.Host, url.URL.Path, url.URL.RawPath, url.URL.RawQuery
+//@   preserves @C11 rootURL
+//@   ensures [no-external-read] !old(loader.IsExternalRefsAllowed) ==> extReads == old(extReads)
+//@   option safety-tags C20
+//@   tag C11
+
+// ---- public entry points: the theorem of C11's first sentence. rootURL is, by definition, the
+// location the caller passed (nothing for LoadFromData / LoadFromIoReader).
+//@ func (*Loader).LoadFromURI
+//@   requires loader != nil && location != nil && cast(rootURL, type *url.URL) == location
+//@   modifies *
+//@   modifies extReads
+//@   ensures [no-external-read] !old(loader.IsExternalRefsAllowed) ==> extReads == old(extReads)
+//@   option safety-tags C20
+//@   tag C11
+//@ func (*Loader).LoadFromDataWithPath
+//@   requires loader != nil && location != nil && cast(rootURL, type *url.URL) == location
+//@   modifies *
+//@   modifies extReads
+//@   ensures [no-external-read] !old(loader.IsExternalRefsAllowed) ==> extReads == old(extReads)
+//@   option safety-tags C20
+//@   tag C11
+//@ func (*Loader).LoadFromData
+//@   requires loader != nil
+//@   modifies *
+//@   modifies extReads
+//@   ensures [no-external-read] !old(loader.IsExternalRefsAllowed) ==> extReads == old(extReads)
+//@   option safety-tags C20
+//@   tag C11
+//@ func (*Loader).LoadFromIoReader
+//@   requires loader != nil
+//@   modifies *
+//@   modifies extReads
+//@   ensures [no-external-read] !old(loader.IsExternalRefsAllowed) ==> extReads == old(extReads)
+//@   option safety-tags C20
+//@   tag C11
+
+// ---- the funnel: reads of files and URLs happen only behind (*Loader).readURL
+//@ onlycalledby @C11 type:ReadFromURIFunc : (*Loader).readURL, ReadFromURIs$1, URIMapCache$1
+//@ onlycalledby @C11 os.ReadFile : ReadFromFile
+//@ onlycalledby @C11 (*net/http.Client).Do : ReadFromHTTP$1
+//@ onlycalledby @C11 os.Open : -
+//@ onlycalledby @C11 net/http.Get : -
+//@ onlycalledby @C11 (*Loader).readURL : (*Loader).loadFromURIInternal, (*Loader).loadSingleElementFromURI, (*Loader).resolveComponent
